@@ -30,7 +30,7 @@ def IterVar.text : IterVar → String
   | .tuple ns => "(" ++ joinWith ", " ns ++ ")"
 
 /-- `Display for Variable::Variable` / `PreExp::Variable`: names containing `_` are escaped -/
-def varText (name : String) : String := if name.contains '_' then "\\" ++ name else name
+def varText (name : String) : String := if name.toList.contains '_' then "\\" ++ name else name
 
 /-- `to_string_with_precedence(prev)` given the operand's own `Display` text: a binary operation is the
 same text as its `Display`, wrapped in parentheses iff its precedence is STRICTLY lower than `prev`;
